@@ -107,8 +107,39 @@ def _push_not(e, neg):
         return _push_not(e.test, neg if e.body.value else not neg)
     if _is_len(e):
         return ast.Compare(left=e, ops=[ast.Lt() if neg else ast.Gt()], comparators=[ast.Constant(value=1 if neg else 0)])
+    q = _quantifier(e)
+    if q is not None:
+        # one spelling for quantified tests: `any(P for x in S)`, possibly negated; all(P) == not any(not P);
+        # the bound variable is renamed to `x`
+        kind, elt, var, seq = q
+        inner_neg = (kind == 'all')
+        outer_neg = neg != (kind == 'all')
+        body = _order(_push_not(_rename_var(elt, var, 'x'), inner_neg))
+        seq2 = _rename_var(seq, None, None)
+        gen = ast.GeneratorExp(elt=body, generators=[ast.comprehension(target=ast.Name(id='x', ctx=ast.Store()), iter=seq2, ifs=[], is_async=0)])
+        call = ast.Call(func=ast.Name(id='any', ctx=ast.Load()), args=[gen], keywords=[])
+        return ast.UnaryOp(op=ast.Not(), operand=call) if outer_neg else call
     if neg:
         return ast.UnaryOp(op=ast.Not(), operand=e)
+    return e
+
+
+def _quantifier(e):
+    if isinstance(e, ast.Call) and isinstance(e.func, ast.Name) and e.func.id in ('any', 'all') and len(e.args) == 1 and not e.keywords \
+            and isinstance(e.args[0], (ast.GeneratorExp, ast.ListComp)) and len(e.args[0].generators) == 1 \
+            and not e.args[0].generators[0].ifs and isinstance(e.args[0].generators[0].target, ast.Name):
+        g = e.args[0]
+        return e.func.id, g.elt, g.generators[0].target.id, g.generators[0].iter
+    return None
+
+
+def _rename_var(e, old, new):
+    e = _copy(e)
+    if old is None or old == new:
+        return e
+    for n in ast.walk(e):
+        if isinstance(n, ast.Name) and n.id == old:
+            n.id = new
     return e
 
 
@@ -179,6 +210,11 @@ def _order(e):
         return ast.BoolOp(op=e.op, values=[_order(v) for v in e.values])
     if isinstance(e, ast.UnaryOp) and isinstance(e.op, ast.Not):
         return ast.UnaryOp(op=ast.Not(), operand=_order(e.operand))
+    if isinstance(e, ast.Compare) and len(e.ops) == 1 and isinstance(e.ops[0], (ast.Eq, ast.NotEq)):
+        # an integer built with bit operators compared with zero is its truth value
+        for a_, b_ in ((e.left, e.comparators[0]), (e.comparators[0], e.left)):
+            if _bitwise(a_) and isinstance(b_, ast.Constant) and b_.value == 0 and not isinstance(b_.value, bool):
+                return a_ if isinstance(e.ops[0], ast.NotEq) else ast.UnaryOp(op=ast.Not(), operand=a_)
     if isinstance(e, ast.Compare) and len(e.ops) == 1:
         l, op, r = e.left, e.ops[0], e.comparators[0]
         ordering = isinstance(op, (ast.Lt, ast.LtE, ast.Gt, ast.GtE))
@@ -223,6 +259,32 @@ def _order(e):
         # a bare length used as a truth value
         return ast.Compare(left=e, ops=[ast.Gt()], comparators=[ast.Constant(value=0)])
     return e
+
+
+def _bitwise(e):
+    return isinstance(e, ast.BinOp) and isinstance(e.op, (ast.RShift, ast.LShift, ast.BitAnd, ast.BitOr, ast.BitXor))
+
+
+def outcome_formula(repo, fi, classify, stmts=None, env=None, atom=None, max_paths=4096):
+    """The condition under which a function ends in a given way, as one formula: every path is traced (guards fork on
+    their atoms), `classify(path)` names its outcome, and the formula of an outcome is the disjunction over its paths of
+    the conjunction of the atoms assumed on the path (names folded to constants).  -> {outcome: formula text}"""
+    from .table import Tracer
+    tr = Tracer(repo, fi.module, cls=fi.cls, noreturn=['err_raiser'], atom=atom, max_paths=max_paths)
+    paths = tr.trace(stmts if stmts is not None else fi.node.body, dict(env or {}))
+    out = {}
+    for p in paths:
+        k = classify(p)
+        lits = []
+        for a, val in p.assume.items():
+            try:
+                ae = ast.parse(a, mode='eval').body
+            except SyntaxError:
+                return None
+            ft = ast.unparse(_Folder(repo, fi.module, fi.cls, None).visit(ae))
+            lits.append('(%s)' % ft if val else 'not (%s)' % ft)
+        out.setdefault(k, []).append(' and '.join(lits) if lits else 'True')
+    return {k: ' or '.join('(%s)' % c for c in v) for k, v in out.items()}
 
 
 def raising_guards(fnode, repo, module, cls=None, env=None, noreturn=()):
@@ -304,6 +366,57 @@ class _Cells(object):
         # comparison of that variable; comparisons with non-integer constants are opaque by construction
         return True
 
+    def var_cells(self):
+        """terms that share variables (pos, len(b) - pos, len(b)): enumerate the variables.  For difference constraints
+        (coefficients +-1, at most two variables per term) the integer points within one unit of the vertices of the
+        arrangement - intersections of x = c and x - y = c lines - meet every cell."""
+        import itertools
+        lin = {}
+        for t in self.terms:
+            l = _linear(ast.parse(t, mode='eval').body)
+            if l is None or l[1] != 0 or len(l[0]) > 2 or any(abs(c) != 1 for c in l[0].values()):
+                return None
+            lin[t] = l[0]
+        variables = sorted({v for l in lin.values() for v in l})
+        vals = {v: {0} for v in variables}
+        for t, l in lin.items():
+            if len(l) == 1:
+                (v, c), = l.items()
+                for k in self.terms[t]:
+                    for d in (-1, 0, 1):
+                        vals[v].add(c * k + d)
+        for _round in range(2):
+            for t, l in lin.items():
+                if len(l) == 2:
+                    (a, ca), (b, cb) = sorted(l.items())
+                    for k in self.terms[t]:
+                        # ca*a + cb*b = k  ->  a = ca*(k - cb*b)
+                        for vb in list(vals[b]):
+                            for d in (-1, 0, 1):
+                                vals[a].add(ca * (k - cb * vb) + d)
+                        for va in list(vals[a]):
+                            for d in (-1, 0, 1):
+                                vals[b].add(cb * (k - ca * va) + d)
+        for v in variables:
+            if v.startswith('len(') and v.endswith(')'):
+                vals[v] = {x for x in vals[v] if x >= 0} | {0}
+        n = 1
+        for v in variables:
+            n *= len(vals[v])
+        n *= 2 ** len(self.free)
+        if n > 400000:
+            return None
+        out = []
+        for combo in itertools.product(*[sorted(vals[v]) for v in variables]):
+            venv = dict(zip(variables, combo))
+            tenv = {t: sum(c * venv[v] for v, c in l.items()) for t, l in lin.items()}
+            for bits in itertools.product((False, True), repeat=len(self.free)):
+                env = dict(tenv)
+                env.update(dict(zip(self.free, bits)))
+                env.update({'$' + v: x for v, x in venv.items()})
+                out.append(env)
+        return out
+
     def cells(self):
         import itertools
         axes = []
@@ -329,6 +442,26 @@ class _Cells(object):
                 env.update(dict(zip(self.free, bits)))
                 out.append(env)
         return out
+
+    def compile(self, e):
+        """the formula as a Python function of the cell (a dict): atoms become lookups, the Boolean skeleton stays"""
+        me = self
+
+        def conv(x):
+            if isinstance(x, ast.BoolOp):
+                return ast.BoolOp(op=x.op, values=[conv(v) for v in x.values])
+            if isinstance(x, ast.UnaryOp) and isinstance(x.op, ast.Not):
+                return ast.UnaryOp(op=ast.Not(), operand=conv(x.operand))
+            if isinstance(x, ast.Constant):
+                return ast.Constant(value=bool(x.value))
+            look = ast.Subscript(value=ast.Name(id='E', ctx=ast.Load()), slice=ast.Constant(value=ast.unparse(x.left) if me.atom_kind(x) == 'lin' else ast.unparse(x)), ctx=ast.Load())
+            if me.atom_kind(x) == 'lin':
+                return ast.Compare(left=look, ops=[x.ops[0]], comparators=[x.comparators[0]])
+            return look
+        body = ast.Expression(body=conv(e))
+        ast.fix_missing_locations(body)
+        code = compile(body, '<formula>', 'eval')
+        return lambda env: bool(eval(code, {'__builtins__': {}}, {'E': env}))
 
     def ev(self, e, env):
         if isinstance(e, ast.BoolOp):
@@ -360,9 +493,18 @@ class _Positive(ast.NodeTransformer):
         return n
 
 
+class _NegConst(ast.NodeTransformer):
+    def visit_UnaryOp(self, n):
+        self.generic_visit(n)
+        if isinstance(n.op, ast.USub) and isinstance(n.operand, ast.Constant) and isinstance(n.operand.value, int) and not isinstance(n.operand.value, bool):
+            return ast.copy_location(ast.Constant(value=-n.operand.value), n)
+        return n
+
+
 def _canon_ast(text_or_ast, negate=False):
     e = ast.parse(text_or_ast, mode='eval').body if isinstance(text_or_ast, str) else _copy(text_or_ast)
     e = ast.parse(_canon_text_of(e, negate), mode='eval').body
+    e = _NegConst().visit(e)
     return ast.fix_missing_locations(_Positive().visit(e))
 
 
@@ -375,8 +517,9 @@ def equiv(a, b, domain=None):
         return True
     c = _Cells([fa, fb])
     if not c.variables_disjoint():
-        return None
-    cells = c.cells()
+        cells = c.var_cells()
+    else:
+        cells = c.cells()
     if cells is None:
         return None
     if domain:
@@ -386,9 +529,10 @@ def equiv(a, b, domain=None):
                     return False
             return True
         cells = [e_ for e_ in cells if inside(e_)]
+    ga, gb = c.compile(fa), c.compile(fb)
     for env in cells:
-        if c.ev(fa, env) != c.ev(fb, env):
-            equiv.witness = env
+        if ga(env) != gb(env):
+            equiv.witness = {k: v for k, v in env.items() if not str(k).startswith('$')}
             return False
     return True
 
